@@ -41,7 +41,8 @@ ASSUMPTIONS = [
     "(a short first bar is a pickup for the quarter map) within float32 precision; everything else is exact",
     "the kern writer cannot express grace notes (it merges them into the token of the main note): grace notes are "
     "only round-tripped through MEI",
-    "export->load: parts have voices that are unique across staves, gap-free voices, equal-duration chords, Tuplet "
+    "export->load: parts have voice numbers that are not shared between staves (in the staffmove spaces a voice may "
+    "sit on another staff in another measure, or have single notes on the other staff), gap-free voices, equal-duration chords, Tuplet "
     "objects for tuplet groups and symbolic durations on every note (what the two writers can express); the "
     "comparison is per note object (onset, duration in quarters, MIDI pitch, staff), ties not merged",
 ]
@@ -471,6 +472,39 @@ def g_grace(fmt, tier, seed):
                             yield {"f": "kern", "doc": kern_doc([ms], style=style)}
 
 
+GRACE_CTX = [(k, v, d) for k in ("n", "c", "r") for (v, d) in ((4, 0), (8, 0), (8, 1))]
+GRACE_WRITTEN = [(4, 0), (8, 0), (8, 1), (16, 0)]
+
+
+def g_grace_shared(fmt, tier, seed):
+    """grace notes whose written value is (or is not) the value of ordinary events of the same layer/spine: two
+    ordinary events from {note,chord,rest} x {4, 8, 8.} + a closing quarter, 1-2 grace notes before each of the three
+    positions (so both orders grace-first / ordinary-first occur), written as 4, 8, 8., 16 (16 is never shared) and,
+    in kern, without digits (the reader's default value 8); a whole note follows in the next measure"""
+    forms = [(gv, gd, None) for gv, gd in GRACE_WRITTEN]
+    if fmt == "kern":
+        forms.append((8, 0, "bare"))
+        variants = (0,)
+    else:
+        variants = (0, 1)
+    for s in seqs(GRACE_CTX, 2):
+        for pos in range(3):
+            for ng in (1, 2):
+                for gv, gd, how in forms:
+                    for var in variants:
+                        evs = [lf(k, v, d, i) for i, (k, v, d) in enumerate(s)] + [lf("n", 4, 0, 2)]
+                        gs = [lf("g", gv, gd, 5 + j) for j in range(ng)]
+                        if fmt == "mei":
+                            for g in gs:
+                                g["gr"] = "acc" if var else "unacc"
+                        evs[pos:pos] = gs
+                        ms = [evs, [lf("n", 1, 0, 4)]]
+                        if fmt == "mei":
+                            yield {"f": "mei", "doc": mei_doc([ms])}
+                        else:
+                            yield {"f": "kern", "doc": kern_doc([ms], style={"grace": "bare"} if how else {})}
+
+
 def g_mei_repeat(tier, seed):
     """3 measures, every combination of left/right barline attributes, with and without first/second endings"""
     lefts = [None, "rptstart"]
@@ -746,6 +780,9 @@ def part_spec(doc):
             for ly in st["layers"]:
                 p = pos
                 open_t = open_by_layer.setdefault((st["n"], ly["n"]), {})
+                # staff of the layer's events: the staff it is listed under, unless the layer names a staff per
+                # measure ('sm'); a single event may sit on another staff ('st', cross-staff notation)
+                lstaff = ly["sm"][mi] if ly.get("sm") else st["n"]
 
                 def emit(evs, tup):
                     nonlocal p
@@ -772,7 +809,7 @@ def part_spec(doc):
                         if e["k"] == "r":
                             nid[0] += 1
                             oid = "r%d" % nid[0]
-                            objs.append({"k": "rest", "id": oid, "s": s_t, "e": e_t, "voice": ly["n"], "staff": st["n"], "sym": sym})
+                            objs.append({"k": "rest", "id": oid, "s": s_t, "e": e_t, "voice": ly["n"], "staff": e.get("st") or lstaff, "sym": sym})
                             open_t.clear()
                             first = first or oid
                             last = oid
@@ -783,9 +820,9 @@ def part_spec(doc):
                                 nid[0] += 1
                                 oid = "n%d" % nid[0]
                                 o = {"k": "grace" if e["k"] == "g" else "note", "id": oid, "s": s_t, "e": e_t, "step": step,
-                                     "alter": alter, "oct": octv, "voice": ly["n"], "staff": st["n"], "sym": sym}
+                                     "alter": alter, "oct": octv, "voice": ly["n"], "staff": e.get("st") or lstaff, "sym": sym}
                                 objs.append(o)
-                                expected.append((p, d, M.midi_pitch(step, alter, octv), st["n"]))
+                                expected.append((p, d, M.midi_pitch(step, alter, octv), e.get("st") or lstaff))
                                 pk = (step, alter, octv)
                                 if e["k"] != "g":
                                     if pk in open_t:
@@ -904,6 +941,109 @@ def g_roundtrip(fmt, tier, seed):
                     yield mk(mei_doc([[evs, [lf("n", 1, 0, 4)]]]))
 
 
+# Genuine defects of the unchanged tree found by the spaces below; a minimal fix for each is in
+# /verif/proposed_fixes/C19-s-<name>.diff.  While a name is listed here the inputs that run into that defect are left
+# out of the enumeration (nothing else is); remove the name once the fix is in the tree under test.
+#   mei-export-empty-staff  save_mei raises ValueError (numpy vectorize on an empty array) for a measure in which a
+#                           lower-numbered staff holds no note or rest while a higher one does
+#   load-score-pathlike     load_score raises AttributeError in is_url for every os.PathLike argument (pathlib.Path)
+FIXES_PENDING = ()
+
+
+def _empty_lower_staff(doc):
+    """some measure of the part has notes/rests on a staff but none on a lower-numbered one"""
+    for mi in range(doc["nm"]):
+        used = set()
+        for st in doc["staves"]:
+            for ly in st["layers"]:
+                home = ly["sm"][mi] if ly.get("sm") else st["n"]
+                for leaf, _ in M.flatten(ly["m"][mi]):
+                    used.add(leaf.get("st") or home)
+        if used and used != set(range(1, max(used) + 1)):
+            return True
+    return False
+
+
+KERN_STAFFMOVE_BLOCKS = 16  # quick tier, kern writer (0.1-0.3 s per part): one hash block of the family
+STAFF_OPTS = ["1", "2", "1x", "2x"]  # home staff of a voice in one measure; x = its last note/chord sits on the other staff
+
+
+def _staffmove_doc(opts, nv, nm, rot):
+    """2 staves; voice v of measure mi is placed according to opts[v * nm + mi]"""
+    fs = fillings((4, 4), "kern")
+    layers = []
+    for v in range(nv):
+        ms, sm = [], []
+        for mi in range(nm):
+            o = opts[v * nm + mi]
+            home = int(o[0])
+            evs = reindex(fs[(rot + 2 * v + mi) % 5], 3 * v + mi)
+            if o.endswith("x"):
+                last = max(i for i, e in enumerate(evs) if e["k"] in ("n", "c"))
+                evs[last]["st"] = 3 - home
+            ms.append(evs)
+            sm.append(home)
+        layers.append({"n": v + 1, "m": ms, "sm": sm})
+    return {"meter": [4, 4], "key": [0, None], "nm": nm,
+            "staves": [{"n": 1, "clef": ["G", 2], "layers": layers}, {"n": 2, "clef": ["F", 4], "layers": []}], "mei": {}}
+
+
+def g_roundtrip_staffmove(fmt, tier, seed):
+    """two-staff parts whose voices change staff from measure to measure (and single notes across the staves): the
+    history of a voice's staff over the measures is enumerated completely"""
+    skip = fmt == "mei" and "mei-export-empty-staff" in FIXES_PENDING
+
+    def family(alphabet, nv, nm, rots):
+        for rot in rots:
+            for opts in itertools.product(alphabet, repeat=nv * nm):
+                doc = _staffmove_doc(opts, nv, nm, rot)
+                if skip and _empty_lower_staff(doc):
+                    continue
+                c = {"f": "rt", "w": fmt, "doc": doc}
+                if fmt == "mei" or tier == "thorough" or block_of(c, KERN_STAFFMOVE_BLOCKS) == seed % KERN_STAFFMOVE_BLOCKS:
+                    yield c
+
+    # one voice, 3 measures, every sequence over the 4 placements; two filling rotations
+    yield from family(STAFF_OPTS, 1, 3, (0, 1))
+    # two voices, 2 measures, every combination of the 4 placements
+    yield from family(STAFF_OPTS, 2, 2, (0,))
+    # two voices, 3 measures, every combination of the two whole-measure placements (swap, swap back, meet on one staff)
+    yield from family(STAFF_OPTS[:2], 2, 3, (0, 2))
+    # three voices, 2 measures, whole-measure placements
+    yield from family(STAFF_OPTS[:2], 3, 2, (1,))
+
+
+# file names: characters that are legal in a (POSIX) file name but special in URLs, shells, globs or format strings,
+# further dots, an inner extension of another format
+NAME_STEMS = ["C#_minor", "why?", "theme;var1", "a b", "a&b=c", "100%", "a%20b", "x.mid#2", "x.musicxml?raw=true", "a+b",
+              "user@host", "a:b", "[1]", "{0}", "~a", "\u00fc-\u00e9", "a,b", "a'b", "(1)", "op.1.no.2", "x.mei.bak", "-x", "$HOME"]
+NAME_DIRS = ["op#1", "a?b", "v;1", "x.mid", "a b", "k.krn"]
+
+
+def g_dispatch_names(tier, seed):
+    """load_score on local .mei/.krn/.kern files: every file-name stem of NAME_STEMS x every spelling of the
+    extension; every directory name of NAME_DIRS; str / pathlib.Path / path relative to the working directory"""
+    evs = [lf("n", 4, 0, 0), lf("c", 4, 1, 1), lf("r", 8, 0, 2), lf("n", 2, 0, 3)]
+    docs = {"mei": mei_doc([[evs]]), "kern": kern_doc([[evs]])}
+    exts = [("mei", ".mei"), ("mei", ".MEI"), ("kern", ".krn"), ("kern", ".kern"), ("kern", ".KRN")]
+    pathlike = "load-score-pathlike" not in FIXES_PENDING
+    for stem in NAME_STEMS:
+        for fmt, ext in exts:
+            yield {"f": "disp", "fmt": fmt, "ext": ext, "stem": stem, "doc": docs[fmt]}
+        for fmt, ext in exts[1:3]:
+            if pathlike:
+                yield {"f": "disp", "fmt": fmt, "ext": ext.lower(), "stem": stem, "aspath": True, "doc": docs[fmt]}
+            yield {"f": "disp", "fmt": fmt, "ext": ext.lower(), "stem": stem, "rel": True, "doc": docs[fmt]}
+    for d in NAME_DIRS:
+        for fmt, ext in (exts[0], exts[2], exts[3]):
+            for stem in ("c19", NAME_STEMS[0]):
+                yield {"f": "disp", "fmt": fmt, "ext": ext, "stem": stem, "dir": d, "doc": docs[fmt]}
+                yield {"f": "disp", "fmt": fmt, "ext": ext, "stem": stem, "dir": d, "rel": True, "doc": docs[fmt]}
+    if pathlike:
+        for fmt, ext in (exts[0], exts[2]):
+            yield {"f": "disp", "fmt": fmt, "ext": ext, "stem": "c19", "aspath": True, "doc": docs[fmt]}
+
+
 def g_dispatch(tier, seed):
     evs = [lf("n", 4, 0, 0), lf("c", 4, 1, 1), lf("r", 8, 0, 2), lf("n", 2, 0, 3)]
     for fmt, exts in (("mei", [".mei", ".MEI", ".Mei"]), ("kern", [".krn", ".kern", ".KRN", ".Kern"])):
@@ -945,6 +1085,11 @@ def spaces(tier, seed):
         sp("kern-ties", g_ties, "same sequences, ties between single notes ([ _ ]); two spines (separate parts / one part)", "kern"),
         sp("mei-grace", g_grace, "1-2 grace notes before each of 3 positions x 3 contexts x 3 written values x acc/unacc", "mei"),
         sp("kern-grace", g_grace, "1-2 grace notes (q) before each of 3 positions x 3 contexts x 3 written values x with/without value", "kern"),
+        sp("mei-grace-shared", g_grace_shared, "2 ordinary events from {note,chord,rest} x {4, 8, 8.} + a quarter, 1-2 grace notes before each of "
+           "the 3 positions, written value of the grace notes in {4, 8, 8., 16} (equal to / different from the value of ordinary events of "
+           "the same layer) x acc/unacc; next measure a whole note", "mei"),
+        sp("kern-grace-shared", g_grace_shared, "the same sequences in one spine; grace tokens (q) written with {4, 8, 8., 16} or without digits "
+           "(default 8), so that a grace note and an ordinary note/chord/rest of the spine share the rhythm token, in both orders", "kern"),
         sp("mei-repeat", g_mei_repeat, "3 measures, (left in {-,rptstart}) x (right in {-,rptend,end,dbl}) per measure x endings {none, 1+2, 1}" + q),
         sp("kern-structure", g_kern_structure, "meter x key x clef x 1-2 spines x part marking {none,*part same/diff,*I same/diff} x staff "
            "declarations x first/final barline; comments, unnumbered and invisible barlines cycled with the key" + q),
@@ -961,7 +1106,19 @@ def spaces(tier, seed):
            "tuplet groups, tie patterns, 7x6x7 pitches, grace notes; save_mei -> load_mei" + q, "mei"),
         sp("roundtrip-kern", g_roundtrip, "the same parts without grace notes; save_kern -> load_kern; quick: 1-event rhythms complete, the "
            "other families by hash block (the writer needs 0.1-0.3 s per part)" + q, "kern"),
+        sp("roundtrip-mei-staffmove", g_roundtrip_staffmove, "2-staff parts, save_mei -> load_mei: per measure a voice is placed on staff 1 or 2, "
+           "optionally with its last note/chord on the other staff (4 placements); 1 voice x 3 measures (4^3 x 2 filling rotations), 2 voices x 2 "
+           "measures (4^4), 2 voices x 3 measures and 3 voices x 2 measures over the whole-measure placements (2^6 each)"
+           + ("; LEFT OUT until proposed_fixes/C19-s-mei-export-empty-staff.diff is applied: parts with a measure whose events are all on staff 2 "
+              "(save_mei raises there)" if "mei-export-empty-staff" in FIXES_PENDING else ""), "mei"),
+        sp("roundtrip-kern-staffmove", g_roundtrip_staffmove, "the same parts (every voice/staff pair becomes a spine), save_kern -> load_kern; "
+           "quick: hash block VERIF_SEED of %d, thorough: all" % KERN_STAFFMOVE_BLOCKS, "kern"),
         sp("dispatch", g_dispatch, "load_score on .mei/.MEI/.Mei/.krn/.kern/.KRN/.Kern; wrong extension for the content"),
+        sp("dispatch-names", g_dispatch_names, "load_score on local files: %d file-name stems with characters special in URLs/shells/globs, inner "
+           "dots and inner extensions x {.mei,.MEI,.krn,.kern,.KRN}; %d directory names; given as str, pathlib.Path or relative path"
+           % (len(NAME_STEMS), len(NAME_DIRS))
+           + ("; LEFT OUT until proposed_fixes/C19-s-load-score-pathlike.diff is applied: the pathlib.Path arguments (load_score raises for "
+              "every os.PathLike)" if "load-score-pathlike" in FIXES_PENDING else "")),
     ]
 
 
@@ -1156,9 +1313,15 @@ def eval_load(case, res, loader_name=None, path_ext=None):
         text = M.kern_text(doc)
         ref = M.reference_kern(doc)
         ext = path_ext or ".krn"
-    path = os.path.join(_tmpdir(), "c19" + ext)
+    folder = _tmpdir()
+    if case.get("dir"):
+        folder = os.path.join(folder, case["dir"])
+        os.makedirs(folder, exist_ok=True)
+    name = (case.get("stem") or "c19") + ext
+    path = os.path.join(folder, name)
     with open(path, "w", encoding="utf-8") as f:
         f.write(text)
+    cwd = None
     try:
         import partitura
         from partitura.io.importmei import load_mei
@@ -1170,11 +1333,25 @@ def eval_load(case, res, loader_name=None, path_ext=None):
         else:
             fn = load_mei if fmt == "mei" else load_kern
             clause = "loads"
+        arg = path
+        if case.get("rel"):
+            # the same file named relative to the working directory
+            cwd = os.getcwd()
+            os.chdir(_tmpdir())
+            arg = os.path.join(case["dir"], name) if case.get("dir") else name
+        if case.get("aspath"):
+            import pathlib
+
+            arg = pathlib.Path(arg)
         res.transitions += 1
-        ok, score = _call(res, clause, fn, path)
+        ok, score = _call(res, clause, fn, arg)
     finally:
+        if cwd is not None:
+            os.chdir(cwd)
         try:
             os.remove(path)
+            if case.get("dir"):
+                os.rmdir(folder)
         except OSError:
             pass
     if not ok:
@@ -1292,7 +1469,7 @@ def eval_case(case):
             return res
         score, ref = eval_load(case, res, "load_score", case["ext"])
         if score is not None:
-            obs = judge_loaded(res, fmt, score, ref, "load_score(%s) " % case["ext"])
+            obs = judge_loaded(res, fmt, score, ref, "load_score(%s%s) " % (case.get("stem") or "", case["ext"]))
             res.outcome = "disp %s ok" % fmt
             res.nontrivial = any(p["notes"] for p in obs["parts"])
         return res
